@@ -12,6 +12,7 @@ PROP = {
         "Multi.C17.codec_lawful",
         "Multi.C17.view_saves_canonical",
         "Multi.C17.view_load_exact",
+        "Multi.C17.view_load_touches_only_view",
         "Multi.C17.view_roundtrip",
         "Multi.elements_walk",
         "Multi.serialAddrs_canonical",
